@@ -1361,6 +1361,51 @@ def run(cmd):
 ''', [("run", [("abc",), ("boom",)])])
 
 
+# ---- a method of the same name on an object of ANOTHER type must be left alone
+case('''
+class Other:
+    def __init__(self):
+        self.got = []
+    def resolve(self, x):
+        self.got.append(("other", x))
+        return len(self.got)
+    def register(self, f, k):
+        self.got.append(("reg", k))
+        return f()
+
+class _Reply:
+    def __init__(self, sink):
+        self.sink = sink
+    def resolve(self, x):
+        self.sink.append(("reply", x))
+
+class Table(dict):
+    def register(self, make, key):
+        slot = make()
+        self[key] = slot
+        return slot
+
+class Owner:
+    def __init__(self):
+        self.table = Table()
+        self.other = Other()
+    def go(self, k):
+        a = self.table.register(list, k)
+        b = self.other.register(list, k)
+        return a, b, sorted(self.table), self.other.got
+
+def run(x):
+    sink = []
+    r = _Reply(sink)
+    o = Other()
+    r.resolve(x)
+    n = o.resolve(x)
+    for q in (o, Other()):
+        q.resolve(x + 1)
+    return sink, o.got, n, Owner().go("k")
+''', [("run", [(1,), (5,)])])
+
+
 def outcome(ns, fn, args):
     import copy
     try:
